@@ -59,6 +59,11 @@ func main() {
 	if s := os.Getenv("VERIF_SEED"); s != "" {
 		seed, _ = strconv.Atoi(s)
 	}
+	if *prop == "E1DUMP" {
+		run := core.NewRun("E1", *tier, seed, "other", *verif, *repo)
+		rules.DumpE1(rules.NewEnv(run))
+		return
+	}
 	spec, ok := rules.Specs[*prop]
 	if !ok {
 		fmt.Fprintf(os.Stderr, "unknown or unclaimed property %q\n", *prop)
